@@ -150,10 +150,12 @@ def cfgStep (c : Cfg) (ws : List String) : Option Cfg :=
 
 /-! ### rendering -/
 
-def fmtLoad (c : Cfg) : LoadRes → String
+/-- `withClass`: the op was `load class` (the generator knows that every failing flow of this
+    configuration fails for the same reason, so Go's map iteration order cannot change the class) -/
+def fmtLoad (c : Cfg) (withClass : Bool) : LoadRes → String
   | .accept _ => "accept live=ok"
   | .reject cls =>
-    if cls == "quota" || cls == "url" || c.flows.length ≤ 1 then "reject:" ++ cls else "reject"
+    if withClass || cls == "quota" || cls == "url" || c.flows.length ≤ 1 then "reject:" ++ cls else "reject"
   | .crash => "crash:stack-overflow"
 
 def fmtTxn (r : TxnRes) : String :=
@@ -185,13 +187,14 @@ def runStep (s : RunSt) (line : String) : RunSt × String :=
   let ws := words line
   match ws with
   | ["case", id] => ({}, s!"case {id}")
-  | ["load"] =>
+  | "load" :: rest =>
+    if rest != [] && rest != ["class"] then (s, "bad-op") else
     if !buildersAgree s.cfg then ({ s with loaded := none }, "model-inconsistent") else
     let r := load s.cfg
     let l := match r with
       | .accept fls => some fls
       | _ => none
-    ({ s with loaded := l }, fmtLoad s.cfg r)
+    ({ s with loaded := l }, fmtLoad s.cfg (rest == ["class"]) r)
   | "txn" :: rest =>
     match (kv rest "dir").bind parseDir, (kv rest "o").bind parseOracle with
     | some d, some t =>
@@ -243,7 +246,7 @@ def parseTxnObs (out : String) : Option TxnObs :=
 def judgeStep (s : JudgeSt) (op out : String) : JudgeSt :=
   let ws := words op
   match ws with
-  | ["load"] =>
+  | "load" :: _ =>
     match parseLoadObs out with
     | some l => { s with load := some l, txns := [] }
     | none => { s with bad := some ("unparsable-load-answer:" ++ pctEnc out) }
